@@ -545,6 +545,10 @@ func tryReplay(p *Program, r *OblResult, vdir, replayDir string) *ReplayResult {
 	}
 	fn := ex.Fn
 	pkg := pkgOf(fn)
+	if fn.Parent() != nil {
+		res.Verdict = "function literal: cannot be called from a test, no replay attempted"
+		return res
+	}
 	ms := &modelSession{ex: ex, obl: r.Obl, solver: solverIdx, cache: map[int]string{}}
 	ms.preferSmall()
 	cz := &concretizer{ms: ms, ex: ex, pkg: pkg, imports: map[string]string{"fmt": "fmt", "testing": "testing"}, objs: map[string]string{}, budget: 4000}
@@ -613,16 +617,6 @@ func tryReplay(p *Program, r *OblResult, vdir, replayDir string) *ReplayResult {
 		}
 	}
 	var sb strings.Builder
-	fmt.Fprintf(&sb, "package %s\n\nimport (\n", pkg.Name())
-	var imps []string
-	for path := range cz.imports {
-		imps = append(imps, path)
-	}
-	sort.Strings(imps)
-	for _, path := range imps {
-		fmt.Fprintf(&sb, "\t%s %q\n", cz.imports[path], path)
-	}
-	fmt.Fprintf(&sb, ")\n\n")
 	for _, d := range cz.top {
 		sb.WriteString(d + "\n")
 	}
@@ -650,6 +644,25 @@ func tryReplay(p *Program, r *OblResult, vdir, replayDir string) *ReplayResult {
 		fmt.Fprintf(&sb, "\t%s\n", postCode)
 	}
 	sb.WriteString("}\n")
+	{
+		// header last: only the packages the generated text actually names are imported
+		text := sb.String()
+		var hd strings.Builder
+		fmt.Fprintf(&hd, "package %s\n\nimport (\n", pkg.Name())
+		var imps []string
+		for path := range cz.imports {
+			imps = append(imps, path)
+		}
+		sort.Strings(imps)
+		for _, path := range imps {
+			if strings.Contains(text, cz.imports[path]+".") {
+				fmt.Fprintf(&hd, "\t%s %q\n", cz.imports[path], path)
+			}
+		}
+		fmt.Fprintf(&hd, ")\n\n")
+		sb.Reset()
+		sb.WriteString(hd.String() + text)
+	}
 	base := smtFileName(r.Obl.Name)
 	testFile := filepath.Join(replayDir, base+"_replay_test.go")
 	os.WriteFile(testFile, []byte(sb.String()), 0o644)
@@ -679,6 +692,9 @@ func tryReplay(p *Program, r *OblResult, vdir, replayDir string) *ReplayResult {
 	case kind == "post" && strings.Contains(so, "VERIF-REPLAY: POST-VIOLATED"):
 		res.Reproduced = true
 		res.Verdict = "real code returned a state violating the postcondition"
+	case kind == "pre" && strings.Contains(so, "VERIF-REPLAY: PANIC"):
+		res.Reproduced = true
+		res.Verdict = "real code panicked on the model's input (a callee was entered outside its precondition)"
 	case kind == "post" && strings.Contains(so, "VERIF-REPLAY: PANIC"):
 		res.Reproduced = true
 		res.Verdict = "real code panicked on the model's input (postcondition unreachable)"
